@@ -68,6 +68,10 @@ func timeConv(root map[string]any, at any, args ...any) (t any) {
 		if t, err = time.Parse(layout, v); err != nil {
 			panic(err)
 		}
+	case time.Time:
+		t = v
+	default:
+		panic(fmt.Errorf("time can not convert a %T", v))
 	}
 	return
 }
